@@ -123,7 +123,7 @@ theorem inv_ackReset {s : Stream} (h : Inv s) : Inv (s.step .ackReset) := by
   apply inv_snd_step h
   have hb := h.b9.1; have h8 := h.a8
   unfold Sender.resetAcked
-  cases he : s.snd.err <;> cases hst : s.snd.st <;> constructor <;> simp_all
+  cases hc : s.snd.closed <;> cases he : s.snd.err <;> cases hst : s.snd.st <;> constructor <;> simp_all
 
 theorem inv_msd {s : Stream} (h : Inv s) (i : Nat) : Inv (s.step (.deliverMsd i)) := by
   simp only [Stream.step]
